@@ -32,7 +32,14 @@ def gen_config(r, allow_faults=True, fixed_step=False, allow_mass=False):
     dt_scale = 1.0
     if kind == 'mass':
         # harness-owned mass-matrix problem driving the real imex_1st_order_mass sweeper (single level, right node = end point)
-        nlevels, nodes = 1, [nodes[0]]
+        # (one level; or two levels with fewer nodes on the coarse one, the real base_transfer_mass and an identity space transfer)
+        if allow_mass == 'multilevel' and r.random() < 0.4:
+            nlevels = 2
+            nodes = [max(nodes[0], 2), max(2 if quad == 'LOBATTO' else 1, max(nodes[0], 2) - r.choice([0, 1]))]
+            P = 1
+            transfer = {'class': 'IdentityTransferWithProject', 'params': {}, 'base_class': 'base_transfer_mass'}
+        else:
+            nlevels, nodes = 1, [nodes[0]]
         quad = 'RADAU-RIGHT' if quad not in ('RADAU-RIGHT', 'LOBATTO') else quad
         sw_params['quad_type'] = quad
         prob = {'class': 'MassDahlquist', 'params': {'n': r.randint(1, 4), 'seed': r.randrange(1000), 'stiffness': 10 ** r.uniform(-0.5, 1.0)}}
@@ -143,7 +150,6 @@ def gen_config(r, allow_faults=True, fixed_step=False, allow_mass=False):
         sw_params.pop('do_coll_update', None)
         cfg['level']['residual_type'] = 'full_abs'  # the mass sweeper always reports the maximum over the nodes
         cfg['controller']['predict_type'] = None
-        cfg['transfer'] = None
         cfg['run']['u0'] = 'exact'
     if cfg['level']['residual_type'].endswith('rel') and kind in ('heat', 'heat_forced', 'advection'):
         # the exact solution used as initial value may have decayed to exactly 0 at t0 > 0 (relative residual divides by |u0|)
@@ -231,10 +237,14 @@ class Shadow:
         Pm = self.prob(lvl)
         mass = self.cfg['sweeper']['class'] == 'imex_1st_order_mass'
         for m in range(M):
-            if mass:
+            if mass and lvl == 0:
                 # mass-matrix form (level 0): M (u0 - u_m) + dt * sum_j Q_mj F_j
                 acc = np.asarray(Pm.M @ (U[0] - U[m + 1]))
                 sc = np.abs(Pm.M) @ (np.abs(U[0]) + np.abs(U[m + 1]))
+            elif mass:
+                # coarser levels hold the initial value already multiplied with the mass matrix (base_transfer_mass restricts M*u0)
+                acc = U[0] - np.asarray(Pm.M @ U[m + 1])
+                sc = np.abs(U[0]) + np.abs(Pm.M) @ np.abs(U[m + 1])
             else:
                 acc = U[0] - U[m + 1]
                 sc = np.abs(U[0]) + np.abs(U[m + 1])
